@@ -44,7 +44,7 @@ func newFuncVerifier(prog *Prog, sp *FuncSpec) *FuncVerifier {
 }
 
 func keys(m map[string]bool) []string {
-	var out []string
+	out := []string{}
 	for k := range m {
 		out = append(out, k)
 	}
